@@ -49,6 +49,7 @@ type worker[T any, JobType iJob[T]] struct {
 	errorChan       chan error
 	waiters         *sync.Cond
 	tickers         []*time.Ticker
+	tickerDones     []chan struct{}
 	mx              sync.RWMutex
 	restartMx       sync.Mutex
 	ctx             context.Context
@@ -402,12 +403,21 @@ func (w *worker[T, JobType]) goRemoveIdleWorkers() {
 	}
 
 	ticker := time.NewTicker(interval)
+	// a stopped ticker never closes its channel: done ends the goroutine when the run ends
+	done := make(chan struct{})
 	w.mx.Lock()
 	w.tickers = append(w.tickers, ticker)
+	w.tickerDones = append(w.tickerDones, done)
 	w.mx.Unlock()
 
 	go func() {
-		for range ticker.C {
+		for {
+			select {
+			case <-done:
+				return
+			case <-ticker.C:
+			}
+
 			// Calculate the target number of idle workers
 			targetIdleWorkers := w.numMinIdleWorkers()
 
@@ -489,7 +499,12 @@ func (w *worker[T, JobType]) stopTickers() {
 		ticker.Stop()
 	}
 
+	for _, done := range w.tickerDones {
+		close(done)
+	}
+
 	w.tickers = make([]*time.Ticker, 0)
+	w.tickerDones = nil
 }
 
 func (w *worker[T, JobType]) closeChannels() {
